@@ -22,13 +22,18 @@ THEOREMS = [
     # unstring_annotation
     "Signature.unstring_only_quotes", "Signature.unstring_result", "Signature.unstring_idempotent",
     "Signature.literal_args_verbatim", "Signature.other_subscript_unquoted", "Signature.unstring_failure_in_place",
+    "Signature.value_strings_unquoted_counterexample",
     # which defs get a signature, overload recognition
     "Signature.overload_by_resolution", "Signature.property_iff", "Signature.module_level_function",
     # overload bookkeeping and what the page shows
     "Signature.overloads_own", "Signature.overloads_displayed", "Signature.records_sound", "Signature.never_broken",
     "Signature.shownName_spec",
 ]
-PARTIAL: Dict[str, str] = {}
+PARTIAL: Dict[str, str] = {
+    "Signature.literal_args_verbatim": "strings that are values keep their quotes only under a subscript SPELLED Literal / x.Literal; the "
+                                       "metadata of Annotated[...] and a Literal imported under another name are excluded "
+                                       "(value_strings_unquoted_counterexample; open finding annotation:value-string-unquoted)",
+}
 RULE = ("FIRST a deterministic corpus (the shapes of all five seeded C14 changes: aliased @overload, annotated positional-only "
         "parameters, a string annotation shared under an operator, right operands of equal precedence, Literal reached through "
         "a module alias; direct oracle only) and the format_signature fallbacks. Then exhaustive: every sequence of <=4 "
@@ -48,7 +53,10 @@ RULE = ("FIRST a deterministic corpus (the shapes of all five seeded C14 changes
         "depth <=2 over {name, Literal, None, string, non-expression string, attribute, subscript, 2-tuple, a|b} and random "
         "deeper ones (model + oracle: only quoting changes, no forward reference left quoted, Literal arguments verbatim); the "
         "decorator loop on every single decorator of 30 spellings x {module, class, inner}, every ordered pair in a class and "
-        "random longer lists (object made, its name, kind, overload flag, name shown after `def`). "
+        "random longer lists (object made, its name, kind, overload flag, name shown after `def`); whole modules with several "
+        "functions / methods whose defaults are constants that compare equal but differ (0/False/0.0/-0.0/0j, 1/True/1.0, ''/b'' "
+        "...: every ordered pair of 24 constants across two functions and within one, plus random modules), every signature "
+        "rendered in source order and read back (oracle only). "
         "Non-trivial = at least two different parameter kinds or a default after a positional-only marker (signature streams); "
         "a string under a subscript/attribute (unstring); a decorated method (decorators).")
 ASSUMPTIONS = [
@@ -67,6 +75,9 @@ ASSUMPTIONS = [
     "ast.NodeTransformer's in-place behaviour (single children assigned one by one, lists assigned at the end) is transcribed in "
     "`AnnE.visit` and tied by the `unstring` stream; annotation nodes other than Name/Attribute/Subscript/2-Tuple/BitOr/Constant "
     "are opaque atoms when string-free and are not generated with strings inside",
+    "signatures whose default/annotation text is cut by the colorizer (long generic-path expressions, marked `...`: C15 wrap_marked) or "
+    "that fall back to `(...)` because html2stan rejects the HTML (U+00A0 -> &nbsp;: C09/C10 finding) are not generated; the oracle's "
+    "unquoting keeps strings that are values (Literal arguments through any import alias, Annotated metadata)",
     "html2stan / flatten_text (HTML of the signature -> text) are seen through their output only (C10); `str(signature)` raising is the "
     "parameter `strRaises` of `formatSignatureX`, exercised by the `fallback` stream",
 ]
@@ -1424,7 +1435,7 @@ def run(ctx: Ctx) -> None:
             if c is not None:
                 cases.append(c)
     # 5. random longer signatures
-    nrand = 1500 if ctx.quick else 30000
+    nrand = 1000 if ctx.quick else 30000
     for i in range(nrand):
         exprs = i % 3 != 0
         text = random_signature(rng, 5, 10, exprs)
@@ -1440,9 +1451,9 @@ def run(ctx: Ctx) -> None:
     run_cases(ctx, cases)
     run_read_stream(ctx, read_texts)
     run_overloads(ctx, 440 if ctx.quick else 4400)
-    run_unstring(ctx, 2, 800 if ctx.quick else 40000)
-    run_decorators(ctx, 300 if ctx.quick else 6000)
-    run_module_constants(ctx, 300 if ctx.quick else 6000)
+    run_unstring(ctx, 2, 500 if ctx.quick else 40000)
+    run_decorators(ctx, 200 if ctx.quick else 6000)
+    run_module_constants(ctx, 200 if ctx.quick else 6000)
 
 
 # ------------------------------------------------------------------ replay
